@@ -97,6 +97,10 @@ TConcat ==
 
 TConstruct ==
     /\ e.op = "construct"
+    (* e.ls = the octets of the labels given (UTF-8 octets of `str` labels); e.res[2] = the octets
+       the constructed object actually holds *)
+    /\ C("HeldNameValid", ResOk(e.res) => Valid(e.res[2]))          \* valid or the constructor raised
+    /\ C("HoldsOctets", ResOk(e.res) => e.allbytes)
     /\ C("Construct", Agrees(e.res, Construct(e.ls)))
     /\ C("ConstructLibErr", e.res[1] = "err" => LibErr(e.res))
     /\ Adv
